@@ -179,8 +179,23 @@ Sine ==
     /\ Check("C06:enbw_is_fs_S2_over_S12", Near(e.enbwq, e.enbwx, 4))
 
 (* single-bin analyses: n is the number of segments actually averaged *)
+(* segments that are bit-identical (a tiled record, no overlap): the scatter is exactly zero *)
+Identical ==
+    LET e == Ev IN
+    /\ Check("C11:scatter_never_negative", e.m2sign >= 0 /\ e.evsign >= 0)
+    /\ Check("C11:empirical_deviation_is_a_real_number", e.devfinite = 1)
+    /\ Check("C11:identical_segments_have_no_scatter", e.K < 2 \/ e.m2rel <= 4)
+(* single-segment bin on a line that completes 4 cycles in the record, delayed copy: no averaging, no edge effect *)
+DelayLine ==
+    LET e == Ev
+        dot == MulQ20(e.h[1], e.cp) + MulQ20(e.h[2], e.sp)
+        crs == MulQ20(e.h[2], e.cp) - MulQ20(e.h[1], e.sp)
+    IN /\ Check("C07:single_segment_delay_phase_is_minus_2pi_f_d_over_fs", dot > 0 /\ 16 * Abs(crs) <= dot + 16)
+       /\ Check("C07:delay_magnitude_near_one", Sq(e.h[1]) + Sq(e.h[2]) >= 943718 /\ Sq(e.h[1]) + Sq(e.h[2]) <= 1153434)    \* 0.9 .. 1.1
+
 Single ==
     LET e == Ev IN
+    /\ Check("C11:empirical_variance_is_scatter_over_the_segments_averaged", Near(e.ev * e.nD, e.m2, e.nD + 2))
     /\ Check("C10:navg_is_number_of_averages", e.n = e.nD /\ e.K = e.nD /\ e.n >= 1)
     /\ Check("C10:Gxx_error_is_one_over_sqrt_n", e.exx <= 4097 /\ Near(e.exx * e.exx * e.nD, 16777216, e.exx * e.nD + e.nD + 64))
     /\ Check("C10:Gxx_dev_is_Gxx_times_error", Near(e.dxx, e.exx, 2))
@@ -219,6 +234,9 @@ Step ==
          [] Ev.t = "sine" -> Sine
          [] Ev.t = "single" -> Single
          [] Ev.t = "errs" -> Errs
+         [] Ev.t = "identical" -> Identical
+         [] Ev.t = "delayline" -> DelayLine
+         [] Ev.t = "broken" -> Check("ANY:estimates_of_one_bin_are_mutually_consistent", FALSE)   \* the recorder could not normalise them (0 density next to positive power, ...)
          [] Ev.t = "shape" -> Check("ANY:variant_analysis_has_the_same_bins", Ev.nf = Ev.ref)   \* swapped / rescaled / relabelled records: same plan
          [] Ev.t = "gain" -> Gain
          [] Ev.t = "delay" -> Delay
